@@ -398,7 +398,7 @@ func runC10Bubble(dir string, c NewStoreCase, info *h.Info) *h.Violation {
 var c10 = &h.Campaign[NewStoreCase]{
 	Prop: "C10", Sub: "newstore",
 	Rule: "rapid + testing/synctest (virtual time): declared names (1-6 from a pool of 4, duplicates frequent, optionally two more through a tagged struct), cache class (none / valid with any subset of names, fresh or stale versions / invalid document / Read error), per-name service script (k transient failures then success, hang until the context ends, permanent error), context (background, deadline, cancelled at T, already cancelled; instants off the back-off grid), client kind (scripted service or FileClient holding any subset), misconfigurations; non-trivial = construction that needed >= 2 rounds with a partially valid cache, or ended by context expiry, or a FileClient lacking a declared secret; distinct by scenario",
-	Quick: 4000, Thorough: 200000,
+	Quick: 4000, Thorough: 2000000,
 	Gen:   genNewStoreCase,
 	Run:   runC10,
 }
